@@ -17,6 +17,10 @@ REPLAYS = os.path.join(EVID, 'replays')
 NCPU = os.cpu_count() or 4
 
 
+import threading
+_LOCK = threading.Lock()
+
+
 class Infra(Exception):
     """The machinery failed (build, TLC crash, timeout of a tool): exit 2."""
 
@@ -81,18 +85,20 @@ class Ctx:
 
     # -- TLC --------------------------------------------------------------
     def specdir(self):
-        d = self.path('spec')
-        if not os.path.isdir(d):
-            shutil.copytree(SPEC, d)
-        return d
+        with _LOCK:
+            d = self.path('spec')
+            if not os.path.isdir(d):
+                shutil.copytree(SPEC, d)
+            return d
 
     def tlc(self, module, cfg, env=None, workers=1, timeout=900, extra=(), name=None, heap=None, jvm=()):
         """Run TLC on spec/<module>.tla with the given cfg text.  Returns stdout.
         Each run gets its own cfg file and metadir."""
         d = self.specdir()
         name = name or module
-        self._n = getattr(self, '_n', 0) + 1
-        cfgname = '%s_%d' % (name, self._n)
+        with _LOCK:
+            self._n = getattr(self, '_n', 0) + 1
+            cfgname = '%s_%d' % (name, self._n)
         with open(os.path.join(d, cfgname + '.cfg'), 'w') as f:
             f.write(cfg)
         meta = self.path('meta_%s' % cfgname)
